@@ -50,7 +50,6 @@ Qed.
 (* ---------- the sparse header ---------- *)
 Definition hdr_ok (h : bytes) : Prop :=
   vmdk_sig h = VMDK_MAGIC_PP /\ (vmdk_ver h = 1 \/ vmdk_ver h = 2 \/ vmdk_ver h = 3) /\ vmdk_desc_sec h * 512 = 512.
-Definition dsize (h : bytes) : N := N.min (vmdk_desc_num h * 512) VMDK_DESC_MAX_SIZE.
 Definition wants_footer (h : bytes) : bool := vmdk_gd h =? gd_at_end.
 
 Lemma fields64 x : 64 <= blen x ->
@@ -392,8 +391,6 @@ Proof.
 Qed.
 
 (* ---------- the chunk that completes a header announcing a misplaced descriptor: ImageFormatError ---------- *)
-Definition hdr_pre (h : bytes) : Prop :=
-  vmdk_sig h = VMDK_MAGIC_PP /\ (vmdk_ver h = 1 \/ vmdk_ver h = 2 \/ vmdk_ver h = 3).
 
 Theorem eat_AB_misplaced sofar p x c :
   blen sofar < 64 -> 64 <= blen (sofar ++ c) -> hdr_pre (bslice 0 512 (sofar ++ c)) ->
